@@ -313,15 +313,26 @@ def run(chk):
     init = psi.methods.get("__init__")
     if init is None:
         raise AnalysisError("_PredictionSegmentInfo.__init__ vanished")
+    # the constructor is interpreted for the weighted segmentation: the mapping and the prediction type are read off the object,
+    # however they are spelled (a literal dict, dict(zip(...)) of two tables, named constants)
+    from engine.absint import AbsObj as _AO, ModuleEnv as _ME
+    from engine.pyinterp import Function as _Fn, Interp as _In, InterpRaised as _IR
     mapping = None
-    for n in walk_no_nested(init.node):
-        if isinstance(n, ast.Dict) and len(n.keys) == 12:
-            try:
-                mapping = ConstEval(chk.res, init.module).ev(n)
-            except NotConstant:
-                pass
+    ptype_found = None
+    try:
+        _it = _In(step_limit=50_000)
+        _me = _AO({psi.name})
+        _Fn(init.node, _ME(chk.repo, init.module, _it, {}), _it)(_me, "three_month_weighted")
+        mapping = _me.__dict__.get("prediction_segment_name_mapping")
+        ptype_found = _me.__dict__.get("prediction_segment_type")
+        if not isinstance(mapping, dict) or not all(isinstance(k_, str) and isinstance(v_, str) for k_, v_ in mapping.items()):
+            mapping = None
+    except _IR as e:
+        r2.require(False, f"{init.key}|mapping-literal", init.where(), f"_PredictionSegmentInfo('three_month_weighted') raises {e.exc_name}")
+    except Unsupported as e:
+        raise AnalysisError(f"{init.key}: uses an operation outside the modelled subset: {e}")
     if mapping is None:
-        r2.require(False, f"{init.key}|mapping-literal", init.where(), "cannot establish the month -> fitted-window mapping (no 12-entry literal dict)")
+        r2.require(False, f"{init.key}|mapping-literal", init.where(), "cannot establish the month -> fitted-window mapping (the constructor does not leave a dict of names)")
     elif n1 is not None:
         r2.require(sorted(mapping) == sorted(ABBR), f"{init.key}|mapping-keys", init.where(), f"prediction mapping keys {sorted(mapping)} are not the 12 one_month segment names")
         for mon, win in mapping.items():
@@ -331,8 +342,7 @@ def run(chk):
                        f"hours of `{mon}` are predicted by `{win}`, which is not the window centred on that month (weight {Ww.get(win, {}).get(m)})",
                        sample={"month": mon, "predicted_by": win, "weight_of_month_in_window": Ww.get(win, {}).get(m)})
         # prediction type one_month in the weighted branch
-        ptypes = [unparse(s.value) for s in walk_no_nested(init.node) if isinstance(s, ast.Assign) and unparse(s.targets[0]) == "self.prediction_segment_type"]
-        r2.require("'one_month'" in ptypes, f"{init.key}|prediction-type", init.where(), f"three_month_weighted models must predict with one_month segments; found {ptypes}")
+        r2.require(ptype_found == "one_month", f"{init.key}|prediction-type", init.where(), f"three_month_weighted models must predict with one_month segments; found {ptype_found!r}")
     sm = chk.repo.cls(SEG, "SegmentedModel")
     sinit, spred = sm.methods.get("__init__"), sm.methods.get("predict")
     if sinit is None or spred is None:
